@@ -2,11 +2,21 @@
    dispatch parser: first instance of the Loop theorem on generated programs. *)
 From Coq Require Import List ZArith Lia Bool Arith.
 From Pico Require Import Base.Res Base.Mach Wire.Wire Schema.Types Schema.Scalar Schema.Gen Schema.Conv Schema.Interp
-  Dec.Dec Dec.LoopEquiv Dec.LoopInst.
+  Dec.Dec Dec.ReaderProofs Dec.LoopEquiv Dec.LoopInst.
 Import ListNotations.
 Open Scope Z_scope.
 
 Definition flat_op (f : kind * Z * nat) : dop := DScalar (fst (fst f)) false false (snd f) (snd (fst f)).
+
+Lemma dec_op_flat progs F rec f st fs un :
+  dec_op progs F rec (flat_op f) st (fs, un) =
+  let '(st', x) := dec_single (fst (fst f)) (snd (fst f)) st (nth (snd f) fs (VInt 0)) in (st', (set_nth fs (snd f) x, un)).
+Proof.
+  unfold dec_op, flat_op. cbn [op_match dec_op_run]. unfold slot_get, set_slot. cbn [fst snd].
+  destruct (Z.eqb_spec (pf st) (snd (fst f))) as [Em|Em].
+  - destruct (dec_single (fst (fst f)) (snd (fst f)) st (nth (snd f) fs (VInt 0))) as [st1 x]. reflexivity.
+  - rewrite dec_single_other by congruence. rewrite set_nth_same. reflexivity.
+Qed.
 
 Lemma dec_body_flat progs F rec fields : forall st fs un,
   dec_body progs F rec (map flat_op fields) st (fs, un) =
@@ -14,7 +24,7 @@ Lemma dec_body_flat progs F rec fields : forall st fs un,
 Proof.
   unfold dec_body, pass_list. induction fields as [|f fields IH]; intros st fs un; [reflexivity|].
   cbn [map fold_left flat_readers]. unfold step at 2. cbn [fst snd].
-  cbn [dec_op flat_op fst snd rrun scalar_reader]. unfold slot_get, set_slot. cbn [fst snd].
+  rewrite dec_op_flat. cbn [rrun scalar_reader].
   destruct (dec_single (fst (fst f)) (snd (fst f)) st (nth (snd f) fs (VInt 0))) as [st1 x].
   fold (flat_readers fields). apply IH.
 Qed.
